@@ -20,6 +20,9 @@ func init() {
 
 func runC18(p *eng.Prog, r *eng.Report, tier string) {
 	c := &cx{p, r, tier}
+	// ---- C18.9 the role/affiliation vocabularies are decoded completely (a
+	// self-presence with an unknown role is dropped and Join never returns)
+	c19EnumLoops(c, "C18.9", func(f *eng.Fn) bool { return strings.HasPrefix(f.Short, "muc.") })
 	// ---- C18.1 key agreement, C18.2 locks -------------------------------------
 	n := 0
 	for _, f := range c.allFns() {
